@@ -148,6 +148,19 @@ Definition looks_like_constructor (n : name) : bool :=
   | [] => false
   end.
 
+(* How lowering + emit_struct_expr spell a call `n(args)` whose callee is a plain identifier:
+   1 = struct literal `n { .. }`, 0 = call syntax `n(..)` (also used for tuple structs).
+   [known_struct]: n is a model/class/newtype of the current file; [npos]: number of positional args. *)
+Definition call_shape (known_struct : bool) (n : name) (npos : nat) : Z :=
+  if known_struct || looks_like_constructor n
+  then (match npos with O => 1 | S _ => 0 end)
+  else 0.
+
+(* Known_C13_capitalised_function: a FUNCTION (not a struct) whose name starts with an upper-case
+   letter, called without positional arguments, is spelled as a struct literal *)
+Definition Known_C13_capitalised_function (n : name) (npos : nat) : bool :=
+  looks_like_constructor n && match npos with O => true | S _ => false end.
+
 (* ---------------------------------------------------------------- rendering for the correspondence run *)
 
 Definition b2z (b : bool) : Z := if b then 1 else 0.
@@ -156,6 +169,8 @@ Definition b2z (b : bool) : Z := if b then 1 else 0.
 Definition render_name (n : name) : Z * list Z * Z * Z * Z :=
   (b2z (legal_incan_ident n), gen_escape_keyword n, b2z (valid_rust_ident (gen_escape_keyword n)),
    b2z (gen_is_rust_keyword n), b2z (gen_keyword_id_is_some n)).
+
+Definition render_call (n : name) (npos : nat) : Z := call_shape false n npos.
 
 (* site k of SITES applied to n: (emitted identifier, valid?) ; [] 0 if k is out of range *)
 Definition render_site (k : nat) (n : name) : list Z * Z :=
